@@ -167,6 +167,8 @@ pub struct Exec<'a> {
     pub cur_threads: usize,
     /// adds/deletes issued since the last commit / rollback / reopen
     pub txn_ops: u32,
+    /// reader observations may fail (faults are injected while they run)
+    pub fault_profile_reads: bool,
 }
 
 pub fn settings_of(cfg: &Cfg) -> IndexSettings {
@@ -390,6 +392,7 @@ impl<'a> Exec<'a> {
             prop,
             cur_threads: cfg.index_threads,
             txn_ops: 0,
+            fault_profile_reads: false,
         };
         let w = make_writer(&e.index, cfg, cfg.index_threads)
             .map_err(|err| format!("HARNESS: first writer failed: {err}"))?;
